@@ -558,7 +558,8 @@ func c06RandGroup(r *rand.Rand, p string) (string, bool) {
 	case k < 3:
 		return "", false
 	case k == 3:
-		return []string{"g", "shared", "x.y"}[r.Intn(3)], false
+		// (a Parallel handler that also has a Group: the group is ignored)
+		return []string{"g", "shared", "x.y"}[r.Intn(3)], r.Intn(5) == 0
 	}
 	if len(tags) == 0 {
 		return "", false
@@ -573,7 +574,7 @@ func c06RandGroup(r *rand.Rand, p string) (string, bool) {
 	if r.Intn(3) == 0 {
 		sb.WriteString(".t")
 	}
-	return sb.String(), false
+	return sb.String(), r.Intn(6) == 0
 }
 
 func c06Random(c *core.Ctx, p c06Params) {
